@@ -1,8 +1,9 @@
 (** C14 -- linear-system and scalar solver primitives (cg, cg_solver, lstsq, MatrixATADSolver,
     ConvATADSolver, bisect, golden).  Only statements; each closed by [exact] of a lemma of
-    coq/theories/C14.  Refuted full statements: coq/Findings/C14_*.v. *)
+    coq/theories/C14.  Refuted full statements of the units that are still defective (cg with a
+    preconditioner, flax cg_solver, golden with a user c): coq/Findings/C14_*.v. *)
 From Coq Require Import List Bool ZArith QArith Qcanon Reals Lra.
-From SV Require Import Base.Num C14.Tup C14.CG C14.CGExec C14.CGReal C14.Lstsq C14.Woodbury C14.Bisect C14.Golden.
+From SV Require Import Base.Num C14.Tup C14.CG C14.CGExec C14.CGReal C14.Lstsq C14.LstsqMat C14.Woodbury C14.Bisect C14.Golden.
 Import ListNotations.
 
 (** scico.solver.cg, abstract module (any scalars K, vectors V, linear A, ANY preconditioner M, ANY inner
@@ -165,16 +166,15 @@ Theorem C14_cg_solver_nan_after_exact_convergence :
 Proof. exact cg_solver_nan_at_solution. Qed.
 Print Assumptions C14_cg_solver_nan_after_exact_convergence.
 
-(** lstsq: in abstract real inner-product spaces (a complex space with Re<.,.> is one), if the operator used for
-    '.T' is the adjoint of A: At(A x) = At b  <->  x minimises ||A x - b||^2.  For complex A the code's .T is not the adjoint:
-    Findings/C14_lstsq_complex.v. *)
+(** lstsq (ATA = Aop.H @ Aop, ATb = Aop.H @ b): in abstract real inner-product spaces (a complex space with
+    Re<.,.> is one), AH the adjoint of A:  AH(A x) = AH b  <->  x minimises ||A x - b||^2. *)
 Theorem C14_lstsq_normal_equations_iff_minimiser :
   forall (X Y : Type) (xadd xsub : X -> X -> X) (xscale : R -> X -> X) (yadd ysub : Y -> Y -> Y)
          (yscale : R -> Y -> Y) (ipX : X -> X -> R) (ipY : Y -> Y -> R) (A : X -> Y) 
-         (At : Y -> X),
+         (AH : Y -> X),
        (forall u v : X, A (xsub u v) = ysub (A u) (A v)) ->
        (forall (t : R) (u : X), A (xscale t u) = yscale t (A u)) ->
-       (forall u v : Y, At (ysub u v) = xsub (At u) (At v)) ->
+       (forall u v : Y, AH (ysub u v) = xsub (AH u) (AH v)) ->
        (forall u v : Y, ipY u v = ipY v u) ->
        (forall u v w : Y, ipY (yadd u v) w = (ipY u w + ipY v w)%R) ->
        (forall (t : R) (u w : Y), ipY (yscale t u) w = (t * ipY u w)%R) ->
@@ -183,12 +183,38 @@ Theorem C14_lstsq_normal_equations_iff_minimiser :
        (forall u v : X, ipX (xsub u v) (xsub u v) = 0%R -> u = v) ->
        (forall u v b : Y, ysub u b = yadd (ysub v b) (ysub u v)) ->
        (forall x h : X, xsub (xadd x h) x = h) ->
-       (forall (u : X) (w : Y), ipY (A u) w = ipX u (At w)) ->
+       (forall (u : X) (w : Y), ipY (A u) w = ipX u (AH w)) ->
        forall (b : Y) (x : X),
-       lstsq_lhs X Y A At x = lstsq_rhs X Y At b <->
+       lstsq_lhs X Y A AH x = lstsq_rhs X Y AH b <->
        (forall x' : X, (obj X Y ysub ipY A b x <= obj X Y ysub ipY A b x')%R).
 Proof. exact normal_equations_iff_minimiser. Qed.
 Print Assumptions C14_lstsq_normal_equations_iff_minimiser.
+
+(** the conjugate transpose is the adjoint of the sesquilinear product sum(conj(u) * v): for every matrix over
+    every commutative ring with involution (real: conj = id; complex), <A x, y> = <x, A^H y>.  Closed. *)
+Theorem C14_conjugate_transpose_is_adjoint :
+  forall (K : Type) (k0 k1 : K) (kadd kmul ksub : K -> K -> K) (kopp conj : K -> K),
+       ring_theory k0 k1 kadd kmul ksub kopp eq ->
+       (forall a b : K, conj (kadd a b) = kadd (conj a) (conj b)) ->
+       (forall a b : K, conj (kmul a b) = kmul (conj a) (conj b)) ->
+       conj k0 = k0 ->
+       forall (m n : nat) (A : mat K m n) (x : tup K n) (y : tup K m),
+       dotc K k0 kadd kmul conj m (mv K k0 kadd kmul m n A x) y =
+       dotc K k0 kadd kmul conj n x (mvH K k0 kadd kmul conj m n A y).
+Proof. exact dotc_mvH. Qed.
+Print Assumptions C14_conjugate_transpose_is_adjoint.
+
+(** lstsq on matrices, real AND complex, every size, no hypothesis left (scalars = complex numbers over R as
+    pairs, a real matrix has zero imaginary parts; rip = Re<.,.>): the system lstsq hands to cg,
+    A^H A x = A^H b, is solved by x exactly when x minimises ||A x - b||^2. *)
+Theorem C14_lstsq_matrix_real_and_complex :
+  forall (m n : nat) (A : mat CR m n) (b : cvecn m) (x : cvecn n),
+       cmvH m n A (cmv m n A x) = cmvH m n A b <->
+       (forall x' : cvecn n,
+        (rip m (csub_n m (cmv m n A x) b) (csub_n m (cmv m n A x) b) <=
+         rip m (csub_n m (cmv m n A x') b) (csub_n m (cmv m n A x') b))%R).
+Proof. exact lstsq_matrix. Qed.
+Print Assumptions C14_lstsq_matrix_real_and_complex.
 
 (** MatrixATADSolver, Woodbury path: G = W^-1 + A D^-1 A^H, fact_solve inverts G (Section variable):
     x = D^-1 (b - A^H G^-1 A D^-1 b) solves (A^H W A + D) x = b.  Additive maps on abelian groups: vector and matrix
@@ -217,15 +243,31 @@ Theorem C14_matrixATAD_direct_path :
 Proof. exact direct_solves. Qed.
 Print Assumptions C14_matrixATAD_direct_path.
 
-(** accuracy = rel_res of the system PROVIDED 'D * x' is the product with D (true for a diagonal D stored as
-    a vector; FALSE for a full D: Findings/C14_accuracy_fullD.v). *)
+(** accuracy (Dx = D * x for a D stored as its diagonal, Dx = D @ x for a full 2-D D: in both cases the action
+    of D) is the relative residual rel_res of (A^H W A + D) x = b, for vector and matrix right-hand sides. *)
 Theorem C14_matrixATAD_accuracy :
-  forall (X Y : Type) (xadd : X -> X -> X) (A : X -> Y) (AH : Y -> X) (W : Y -> Y) 
-         (D : X -> X) (S : Type) (relres : X -> X -> S) (dmul : X -> X),
-       (forall x : X, dmul x = D x) ->
-       forall x b : X, accuracy X Y xadd A AH W S relres dmul x b = relres (sysop X Y xadd A AH W D x) b.
+  forall (X Y : Type) (xadd : X -> X -> X) (A : X -> Y) (AH : Y -> X) (W : Y -> Y)
+         (D : X -> X) (S : Type) (relres : X -> X -> S) (x b : X),
+       accuracy X Y xadd A AH W D S relres x b = relres (sysop X Y xadd A AH W D x) b.
 Proof. exact accuracy_is_system_residual. Qed.
 Print Assumptions C14_matrixATAD_accuracy.
+
+(** hence on the value solve returns (Woodbury path) accuracy = rel_res(b, b) (= 0 for scico.metric.rel_res) *)
+Theorem C14_matrixATAD_accuracy_of_solution :
+  forall (X Y : Type) (xadd xsub : X -> X -> X) (yadd ysub : Y -> Y -> Y),
+       (forall a t : Y, ysub (yadd a t) t = a) ->
+       (forall a b : X, xadd a (xsub b a) = b) ->
+       forall (A : X -> Y) (AH : Y -> X) (W Winv : Y -> Y) (D Dinv : X -> X),
+       (forall u v : X, A (xsub u v) = ysub (A u) (A v)) ->
+       (forall u v : X, Dinv (xsub u v) = xsub (Dinv u) (Dinv v)) ->
+       (forall u : X, D (Dinv u) = u) ->
+       (forall u : Y, W (Winv u) = u) ->
+       forall fact_solve_w : Y -> Y,
+       (forall y : Y, Gw X Y yadd A AH Winv Dinv (fact_solve_w y) = y) ->
+       forall (S : Type) (relres : X -> X -> S) (b : X),
+       accuracy X Y xadd A AH W D S relres (solve_woodbury X Y xsub A AH Dinv fact_solve_w b) b = relres b b.
+Proof. exact accuracy_of_woodbury_solution. Qed.
+Print Assumptions C14_matrixATAD_accuracy_of_solution.
 
 (** ConvATADSolver in the DFT domain = Woodbury with W = I (Einv = division by 1 + sum Ahat conj(Ahat)/Dhat). *)
 Theorem C14_convATAD_solves :
@@ -395,6 +437,34 @@ Proof.
   apply (woodbury_solves R R Rplus Rminus Rplus Rminus) with (Winv := fun y => y / 2);
     intros; unfold Gw; try field; try ring.
 Qed.
+
+(** complex least squares on the former counterexample A = [[1],[i/2]], b = [0,1] (Gaussian rationals, by
+    computation): x = -2i/5 solves A^H A x = A^H b, and ||A x - b||^2 = 4/5 is below the 20/9 attained by
+    x = 2i/3, the solution of the transposed system the code formed before commit 247d4df. *)
+Example C14_lstsq_complex_example :
+  let cq (a b : Q) : C := (Q2Qc a, Q2Qc b) in
+  let A : mat C 2 1 := ((cq 1%Q 0%Q, tt), ((cq 0%Q (1 # 2)%Q, tt), tt)) in
+  let b : tup C 2 := (cq 0%Q 0%Q, (cq 1%Q 0%Q, tt)) in
+  let x : tup C 1 := (cq 0%Q ((-2) # 5)%Q, tt) in
+  let xT : tup C 1 := (cq 0%Q (2 # 3)%Q, tt) in
+  let pr (v : tup C 1) := map (fun z => (this (fst z), this (snd z))) (to_list 1 v) in
+  let nsq (v : tup C 1) :=
+    let r := tsub C Csub 2 (mv C C0 Cadd Cmul 2 1 A v) b in this (fst (dotc C C0 Cadd Cmul Cconj 2 r r)) in
+  pr (mvH C C0 Cadd Cmul Cconj 2 1 A (mv C C0 Cadd Cmul 2 1 A x)) = pr (mvH C C0 Cadd Cmul Cconj 2 1 A b) /\
+  nsq x = (4 # 5)%Q /\ nsq xT = (20 # 9)%Q.
+Proof. vm_compute. repeat split; reflexivity. Qed.
+
+(** accuracy with a full D on the former counterexample A^H W A = I, D = [[3,1],[1,2]], x = [1,1], b = [5,4]:
+    the residual b - (A^H W A x + D @ x) the repaired code forms is exactly zero. *)
+Example C14_accuracy_fullD_example :
+  let G0 := rmat 2 [[1#1; 0#1]; [0#1; 1#1]] in
+  let D := rmat 2 [[3#1; 1#1]; [1#1; 2#1]] in
+  let x := rvec 2 [1#1; 1#1] in
+  let b := rvec 2 [5#1; 4#1] in
+  map this (to_list 2 (tsub Qc Qcminus 2 b
+     (tadd Qc Qcplus 2 (mv Qc 0%Qc Qcplus Qcmult 2 2 G0 x) (mv Qc 0%Qc Qcplus Qcmult 2 2 D x))))
+  = [0; 0]%Q.
+Proof. vm_compute. reflexivity. Qed.
 
 Example C14_bisect_hypotheses_satisfiable :
   exists f : R -> R, continuity f /\ f 0 * f 1 < 0.
